@@ -544,6 +544,89 @@ def field_name_cases():
     return [Case(f"FIELDNAME\t{k}\t{n}", "field-names", {"kind": k, "fname": n}) for k in ("nt", "dc") for n in ODD_FIELD_NAMES]
 
 
+VARIADIC_SIGS = ["x: XA, *rest: int", "x: XA, **opts: typing.Any", "x: XA, *rest: int, k: float = 1.0, **opts: str",
+                 "*xs: int, y: XA", "x: XA, *rest, **opts", "x: XA, /, *rest: 'np.ndarray', flag: bool = False"]
+
+
+def observe_variadic(case) -> str:
+    """`*args` / `**kwargs` parameters carrying ordinary (non-dltype) annotations next to a dltype parameter: decoration succeeds and the
+    extra positionals / keywords reach the body as on the undecorated twin"""
+    sig = case.meta["sig"]
+    names = [p.split(":")[0].split("=")[0].strip().lstrip("*") for p in sig.split(",") if p.strip() not in ("/", "*")]
+    body = "    LOG.append((" + "".join(n + ", " for n in names) + "))\n    return None\n"
+    src = f"def v_raw({sig}):\n{body}"
+    MOD.LOG = []
+    MOD.XA = typing.Annotated[np.ndarray, MOD.A]
+    exec(compile(src, "<c16var>", "exec"), MOD.__dict__)  # noqa: S102  (every signature of the family is valid: a SyntaxError here is a defect of the harness)
+    try:
+        exec(compile("@dltype.dltyped()\n" + src.replace("v_raw", "v_dec"), "<c16var>", "exec"), MOD.__dict__)  # noqa: S102
+    except Exception as e:  # noqa: BLE001
+        return f"differs decoration-raises({type(e).__name__}: {str(e)[:70]})"
+    kw_first = sig.startswith("*xs")
+    calls = [((1, 2), {"y": MOD.GOOD}), ((), {"y": MOD.GOOD})] if kw_first else [((MOD.GOOD,), {}), ((MOD.GOOD, 1, 2), {}), ((MOD.GOOD,), {"a": 1, "b": "s"}), ((MOD.GOOD, 5), {"k": 2.5, "c": "t"})]
+    diffs = []
+    for args, kwargs in calls:
+        outs = []
+        for f in (MOD.v_dec, MOD.v_raw):
+            MOD.LOG.clear()
+            try:
+                f(*args, **kwargs)
+                outs.append(("ok", [tuple(x if not isinstance(x, np.ndarray) else "arr" for x in rec) if isinstance(rec, tuple) else rec for rec in map(lambda r: tuple(map(lambda v: v if not isinstance(v, (tuple, dict)) else repr(v), r)), MOD.LOG)]))
+            except Exception as e:  # noqa: BLE001
+                outs.append((type(e).__name__, []))
+        if outs[0] != outs[1]:
+            diffs.append(f"call(args={len(args)},kwargs={sorted(kwargs)}): decorated {outs[0][0]} vs undecorated {outs[1][0]}")
+    bad_args = ((), {"y": MOD.BAD}) if kw_first else ((MOD.BAD,), {})
+    try:
+        MOD.v_dec(*bad_args[0], **bad_args[1])
+        diffs.append("violating-argument-accepted")
+    except dltype.DLTypeError:
+        pass
+    except Exception as e:  # noqa: BLE001
+        diffs.append(f"violating-argument-gives-{type(e).__name__}")
+    return "differs " + "; ".join(diffs)[:300] if diffs else "same"
+
+
+def variadic_cases():
+    return [Case(f"VARIADIC\tdef f({s})", "variadic", {"sig": s}) for s in VARIADIC_SIGS]
+
+
+def observe_class_defaults(case) -> str:
+    """an annotated field with a TENSOR default, left out by the caller (NamedTuple / dataclass; by position and by keyword): the instance
+    holds the default, as on the twin; a default that violates its annotation is refused"""
+    kind, dflt = case.meta["kind"], case.meta["default"]
+    head = {"nt": "class {n}(typing.NamedTuple):\n", "dc": "@dataclasses.dataclass\nclass {n}:\n"}[kind]
+    dec = {"nt": "@dltype.dltyped_namedtuple()\n", "dc": "@dltype.dltyped_dataclass()\n"}[kind]
+    dsrc = f"dataclasses.field(default_factory=lambda: {dflt})" if kind == "dc" else dflt
+    fields = f"    x: Annotated[np.ndarray, A]\n    w: Annotated[np.ndarray, A] = {dsrc}\n    k: int = 3\n"
+    src = dec + head.format(n="CD_dec") + fields + head.format(n="CD_raw") + fields
+    try:
+        exec(compile(src, "<c16dflt>", "exec"), MOD.__dict__)  # noqa: S102
+    except Exception as e:  # noqa: BLE001
+        return f"differs definition-raises({type(e).__name__}: {str(e)[:60]})"
+    want_default = getattr(MOD, dflt)
+    diffs = []
+    for how, call in (("x by position", lambda c: c(MOD.GOOD)), ("x by keyword", lambda c: c(x=MOD.GOOD)), ("x and k", lambda c: c(MOD.GOOD, k=5))):
+        outs = []
+        for c in (MOD.CD_dec, MOD.CD_raw):
+            try:
+                inst = call(c)
+                outs.append(("ok", inst.w is want_default, inst.k))
+            except dltype.DLTypeError as e:
+                outs.append(("dltype " + type(e).__name__,))
+            except Exception as e:  # noqa: BLE001
+                outs.append((type(e).__name__,))
+        if dflt == "GOOD" and outs[0] != outs[1]:
+            diffs.append(f"{how}: decorated {outs[0]} vs undecorated {outs[1]}")
+        if dflt == "BAD" and outs[0] != ("dltype DLTypeNDimsError",):
+            diffs.append(f"{how}: a violating default gives {outs[0]}")
+    return "differs " + "; ".join(diffs)[:300] if diffs else "same"
+
+
+def class_default_cases():
+    return [Case(f"CLASSDEFAULT\t{k}\tw={d}", "class-defaults", {"kind": k, "default": d}) for k in ("nt", "dc") for d in ("GOOD", "BAD")]
+
+
 def expect(case, got):
     if got.startswith("same") or got.startswith("skip"):
         return None
@@ -577,6 +660,8 @@ def custom(run, tier):
     run.observe(cs, observe_func, expect, "decorated function differs from its undecorated twin")
     run.observe(class_cases(), observe_class, expect, "decorated class differs from its undecorated twin")
     run.observe(exception_cases(), observe_exception, expect, "an exception raised by the body / by the class's own __init__ / __post_init__ does not reach the caller unchanged")
+    run.observe(variadic_cases(), observe_variadic, expect, "a function with annotated *args / **kwargs next to a dltype parameter differs from its undecorated twin")
+    run.observe(class_default_cases(), observe_class_defaults, expect, "a decorated class whose annotated field has a tensor default differs from its twin when the field is left out")
     run.observe(return_object_cases(), observe_return_object, expect, "the object the body returns is not handed to the caller as it is")
     run.observe(field_name_cases(), observe_field_names, expect, "a decorated class with a field whose name the decorator uses internally differs from its twin")
     fields = [Case(f"TWINFIELDS\t{k}", "fields", {"shape": k}) for k in FIELD_SHAPES]
